@@ -106,6 +106,12 @@ func labelsFromBytes(buf []byte) ([]string, error) {
 
 	for {
 		if pos >= len(buf) {
+			if handlingPointer {
+				// the name a compression pointer refers to must end inside
+				// the buffer; otherwise everything after the pointer would
+				// be dropped silently.
+				return nil, errors.New("rfc1035label: compression pointer target is not terminated inside the buffer")
+			}
 			// interpret label without trailing zero-length byte as a partial
 			// domain name field as per RFC 4704 Section 4.2
 			if label != "" {
